@@ -368,7 +368,7 @@ def _parse_attribute_name(name: str) -> str:
     """
 
     def _char_map(idx: int, char: str) -> str:
-        if char.isalnum() or char in ("_", "-", " "):
+        if ("_" + char).isidentifier() or char in ("-", " "):
             return char
         if char in string.whitespace:
             return "_"
